@@ -134,6 +134,7 @@ def dispatch (j : Json) : Json :=
   | some "stack" => opStack j
   | some "rename" => opRename j
   | some "compose" => opCompose j
+  | some "solverparams" => opSolverParams j
   | some "wiring" => opWiring j
   | some "split" => opSplit j
   | some "prune" => opPrune j
